@@ -81,12 +81,13 @@ def Tok.truthy : Tok → Bool
   | .s v => !v.isEmpty
   | .n v => v != 0
   | .g ts => !ts.isEmpty
+  | .nm _ _ _ ts => !ts.isEmpty
 
 /-- `out = [o for o in out if o]` drops falsy top-level items (empty strings/lists, the integer 0) -/
 def transformPieces (s : List Char) : List Match → Nat → List Char
   | [], lastE => s.drop lastE
   | m :: ms, lastE =>
-    (if m.start > lastE then slice s lastE m.start else []) ++ strsL (m.toks.filter Tok.truthy)
+    (if m.start > lastE then slice s lastE m.start else []) ++ strsL ((flatL m.toks).filter Tok.truthy)
       ++ transformPieces s ms m.stop
 
 /-- transform_string (1345-1380) on a completed scan -/
